@@ -11,9 +11,9 @@ import itertools
 from ..absint import FlagEval, TOP
 from ..cfg import CFG
 from ..dataflow import definitely_assigned, loaded_names
-from ..model import walk_shallow, call_name, is_self_attr, dotted_name, parent, ancestors, enclosing_function
+from ..model import walk_shallow, call_name, is_self_attr, dotted_name, parent, ancestors, enclosing_function, rename_copy
 from ..util import (has_call, find_calls, assigned_value, const_str, unparse, kw, arg_or_kw, enclosing_stmt,
-                    guards_of, call_tail, control_ancestors)
+                    guards_of, call_tail, control_ancestors, alpha, bound_names, name_bound)
 from .. import mutate as M
 from . import c05
 
@@ -37,8 +37,23 @@ def _returned_strings(fn):
     return out
 
 
+def _roles_parse_pred(fn):
+    m = {}
+    for x in fn.body:
+        if isinstance(x, ast.If) and unparse(x.test).startswith("self._pred_batch =="):
+            arm = const_str(x.test.comparators[0]) if isinstance(x.test, ast.Compare) else None
+            for r in walk_shallow(x):
+                if isinstance(r, ast.Return) and isinstance(r.value, ast.Tuple) and len(r.value.elts) == 3 and all(isinstance(e, ast.Name) for e in r.value.elts):
+                    a, p_, k = [e.id for e in r.value.elts]
+                    m.setdefault(k, "kwargs")
+                    m.setdefault(a, "a" if arm == "not" else "A")
+                    m.setdefault(p_, "p" if arm == "not" else "P")
+    return m
+
+
 def run(ctx):
     pp = ctx.fn(SAF, "SafeLearner._parse_pred")
+    pp = rename_copy(pp, _roles_parse_pred(pp))
     pf = ctx.fn(SAF, "SafeLearner.pred_format")
     bo = ctx.fn(SAF, "SafeLearner.batch_order")
     formats = _returned_strings(pf)
@@ -192,10 +207,10 @@ def r3_sampling(ctx, pp):
 
 def r4_kwargs(ctx, pp):
     ctx.rule("C15.R4", "kwargs returned by _parse_pred are the prediction's last element and SafeLearner.learn hands **kwargs to the learner")
-    forms = [(unparse(v), [unparse(t) for t, p in guards_of(enclosing_stmt(v), pp) if p]) for v in assigned_value(pp, "kwargs")]
-    simple = [f for f, g in forms if f == "pred[-1] if self._pred_kwargs else {}"]
-    rowf = [f for f, g in forms if f == "[p[-1] if self._pred_kwargs else {} for p in pred]"]
-    trans = [f for f, g in forms if f == "{k: [kw[k] for kw in kwargs] for k in kwargs[0]}"]
+    forms = [(alpha(v), [unparse(t) for t, p in guards_of(enclosing_stmt(v), pp) if p]) for v in assigned_value(pp, "kwargs")]
+    simple = [f for f, g in forms if f == alpha("pred[-1] if self._pred_kwargs else {}")]
+    rowf = [f for f, g in forms if f == alpha("[p[-1] if self._pred_kwargs else {} for p in pred]")]
+    trans = [f for f, g in forms if f == alpha("{k: [kw[k] for kw in kwargs] for k in kwargs[0]}")]
     ctx.ob("C15.R4", SAF, "SafeLearner._parse_pred", pp, "kwargs is pred[-1] (un-batched and column-major) / the per-row last elements transposed (row-major), else {}",
            len(simple) == 2 and len(rowf) == 1 and len(trans) == 1, detail={"kwargs": [f for f, _ in forms]}, stmt="kwargs forms")
     for r in walk_shallow(pp):
@@ -217,8 +232,8 @@ def r4_kwargs(ctx, pp):
     ok = any(isinstance(r, ast.Return) and unparse(r.value) == "method(*args, **kwargs)" for r in walk_shallow(m1))
     ctx.ob("C15.R4", SAF, "SafeLearner._method1", m1, "the direct call passes **kwargs", ok, stmt="_method1")
     pr = ctx.fn(SAF, "SafeLearner.predict")
-    ok = any(isinstance(r, ast.Return) and unparse(r.value) == "self._parse_pred(context, self._safe_actions, pred)" for r in walk_shallow(pr)) and \
-        any(isinstance(c, ast.Call) and unparse(c) == "self._safe_call('predict', self.learner.predict, (context, self._safe_actions))" for c in walk_shallow(pr))
+    PRED = name_bound(pr, lambda v: unparse(v) == "self._safe_call('predict', self.learner.predict, (context, self._safe_actions))", "pred")
+    ok = any(isinstance(r, ast.Return) and unparse(r.value) == f"self._parse_pred(context, self._safe_actions, {PRED})" for r in walk_shallow(pr)) and bool(assigned_value(pr, PRED))
     ctx.ob("C15.R4", SAF, "SafeLearner.predict", pr, "predict parses the learner's answer against the same action list it offered", ok, stmt="predict wiring")
 
 
@@ -226,6 +241,12 @@ def r5_fallback(ctx):
     ctx.rule("C15.R5", "_safe_call: the per-row fall-back (_method2) is tried only in the handler of the batched attempt, its output is "
                        "validated, and it calls the method once per row over zip(*args)")
     sc = ctx.fn(SAF, "SafeLearner._safe_call")
+    roles = {}
+    for n in bound_names(sc, lambda v: unparse(v) == "SafeLearner.batch_size(args)"):
+        roles[n] = "expected_size"
+    for n in bound_names(sc, lambda v: isinstance(v, ast.Call) and call_tail(v) in ("_method1", "_method2")):
+        roles[n] = "out"
+    sc = rename_copy(sc, roles)
     m2calls = [c for c in walk_shallow(sc) if isinstance(c, ast.Call) and call_tail(c) == "_method2"]
     ctx.floor("C15.R5", "_method2 call sites", len(m2calls), 2)
     for c in m2calls:
@@ -247,7 +268,8 @@ def r5_fallback(ctx):
         ctx.ob("C15.R5", SAF, "SafeLearner._safe_call", c, "the batched attempt's output is validated before it is accepted", "raise_if_not_valid_out(out, expected_size)" in nxt, stmt="validate batched")
     m2 = ctx.fn(SAF, "SafeLearner._method2")
     comps = [x for x in walk_shallow(m2) if isinstance(x, ast.ListComp)]
-    ok = len(comps) == 1 and unparse(comps[0].generators[0].iter) == "enumerate(zip(*args))" and unparse(comps[0].elt).startswith("method(*a, **")
+    ok = len(comps) == 1 and unparse(comps[0].generators[0].iter) == "enumerate(zip(*args))" and \
+        alpha(comps[0]) == alpha("[method(*a, **{k: v[i] for k, v in kwargs.items()}) for i, a in enumerate(zip(*args))]")
     ctx.ob("C15.R5", SAF, "SafeLearner._method2", comps[0] if comps else m2, "the fall-back calls the method once per row, in row order, with that row's kwargs", ok)
 
 
